@@ -204,7 +204,7 @@ def judge05 (p : Parsed) (log : List Eff) : String :=
     else match p.script.head?, rep with
       | none, some pl => if errOf pl = some (Req.codeInternal, str "Internal error: missing response") then "?ok" else "?viol:missing-response-not-internal-error"
       | some (.panic (.err (.res c m))), some pl
-      | some (.error (.res c m)), some pl => if errOf pl = some (c, m) then "?ok" else "?viol:error-not-verbatim"
+      | some (.error (.res c m)), some pl => if errOf pl = some (Req.esc c, Req.esc m) then "?ok" else "?viol:error-not-verbatim"
       | some (.panic _), some pl => if (errOf pl).map (·.1) = some Req.codeInternal then "?ok" else "?viol:panic-not-internal-error"
       | some (.access g c), some pl =>
         -- an access handler that grants something (get, or some call methods) is answered with that result
